@@ -449,6 +449,8 @@ def SCHEMA_GENERATORS(src, attempt, problems):
             ('GenFnTemplates.v', lambda: __import__('translate_methods').gen_fn_templates(src, attempt, __import__('translate').match_template, __import__('rustexpr').tokenize, ('fmt',))),
             ('GenDeriveMaxSize.v', lambda: __import__('translate_methods').gen_fn_templates(src, attempt, __import__('translate').match_template, __import__('rustexpr').tokenize, ('derive_ms',))),
             ('GenDeriveSchema.v', lambda: __import__('translate_methods').gen_fn_templates(src, attempt, __import__('translate').match_template, __import__('rustexpr').tokenize, ('derive_schema',))),
+            ('GenErrorImpls.v', lambda: __import__('translate_methods').gen_fn_templates(src, attempt, __import__('translate').match_template, __import__('rustexpr').tokenize, ('error',))),
+            ('GenKeyFns.v', lambda: __import__('translate_methods').gen_fn_templates(src, attempt, __import__('translate').match_template, __import__('rustexpr').tokenize, ('key',))),
             ('GenDynHelpers.v', lambda: __import__('translate_methods').gen_fn_templates(src, attempt, __import__('translate').match_template, __import__('rustexpr').tokenize, ('dynser', 'dynde'))),
             ('GenStorages.v', lambda: __import__('translate_methods').gen_storages(src, attempt)),
             ('GenFixint.v', lambda: __import__('translate_methods').gen_fixint(src, attempt)),
